@@ -3,8 +3,8 @@ package checks
 import (
 	"bufio"
 	"bytes"
-	"fmt"
 	"crypto/sha1"
+	"fmt"
 	"os"
 	"path/filepath"
 	"reflect"
@@ -244,9 +244,12 @@ func e1Seeds() (box []e1Seed, file []e1Seed) {
 		{Shape: []int{1, 2}, Tracks: 1, Mech: "sidx"},
 		{Shape: []int{1, 1}, Tracks: 2, Mech: "sidx2", Emsg: 1},
 		{Shape: []int{2, 1}, Tracks: 1, Mech: "mfra", Base: 7, Cto: 2},
+		{Shape: []int{1, 1}, Tracks: 2, Mech: "mfra", Tfra2: 1},
+		{Shape: []int{1, 1}, Tracks: 2, Mech: "mfra", Tfra2: 2},
+		{Shape: []int{1, 1}, Tracks: 2, Mech: "mfra", Tfra2: 3},
 	} {
 		b := c12Build(l)
-		file = append(file, e1Seed{Name: "gen/delimiters-" + l.Mech, Type: "file", Bytes: b.File})
+		file = append(file, e1Seed{Name: fmt.Sprintf("gen/delimiters-%s%d", l.Mech, l.Tfra2), Type: "file", Bytes: b.File})
 	}
 	e1SeedCache.box, e1SeedCache.file, e1SeedCache.done = box, file, true
 	return box, file
